@@ -1,2 +1,79 @@
-(* C01 — Properties (filled in as the theorems close) *)
-From Dastard Require Import Common.ZX Pipeline.Stream C01.Model C01.Spec.
+(* C01 — property theorems only: each closed by [exact], each followed by Print Assumptions.
+
+   Vocabulary (Spec.v).  A history is the list of operations a channel sees after PrepareRun installed
+   (npre, nsamp, restored trigger settings): blocks delivered by the source, ChangeTriggerState requests,
+   ConfigurePulseLengths requests.  [run (fresh_start npre nsamp ts) ops] is the mirror model's observation after
+   each operation.  [annotate] reads (operations, observations) and returns, for every delivered block b, the
+   settings in force (bi_npre, bi_nsamp), the ground truth [bi_G b] = every sample delivered so far including the
+   block, the frame number [bi_F0 b] of its first element, the block itself [bi_seg b] and the records published
+   for it [bi_recs b]; it returns None if anything crashed.
+   Premises = what a source and the RPC layer guarantee: valid initial lengths (npre >= 3, nsamp >= npre+1),
+   record lengths small enough for EMTState's int32 copies, contiguous frame numbering, one sample period,
+   edge-multi off (that mode is property C08).  Nothing is assumed about sample values, block lengths, trigger
+   settings, or the order and number of reconfigurations; invalid ConfigurePulseLengths requests are part of the
+   histories (the model refuses them like the code does). *)
+From Dastard Require Import Common.ZX Pipeline.Stream C01.Model C01.Spec C01.Proofs.
+
+(* Every record emitted by the edge / level / auto passes over any history is the exact excerpt of the ground
+   truth around its frame, has the configured lengths, and carries block time + (frame - block first frame) * period. *)
+Theorem records_are_excerpts :
+  forall npre nsamp ts F0 period ops,
+    lengths_ok npre nsamp = true -> nsamp <= max_nsamp ->
+    contiguous F0 ops -> Forall (op_ok period) ops ->
+    exists bs,
+      annotate F0 (init_sstate npre nsamp ts F0) (combine ops (run (fresh_start npre nsamp ts) ops)) = Some bs /\
+      forall b r, In b bs -> In r (bi_recs b) ->
+        let j := r_frame r - bi_F0 b in
+        r_pre r = bi_npre b /\ zlen (r_data r) = bi_nsamp b /\
+        0 <= j - bi_npre b /\ j - bi_npre b + bi_nsamp b <= zlen (bi_G b) /\
+        r_data r = zslice (bi_G b) (j - bi_npre b) (bi_nsamp b) /\
+        r_time r = seg_time (bi_seg b) + (r_frame r - seg_first (bi_seg b)) * seg_period (bi_seg b) /\
+        r_signed r = seg_signed (bi_seg b).
+Proof. exact model_records_are_excerpts. Qed.
+Print Assumptions records_are_excerpts.
+
+(* No stream content, block pattern or control history makes processing crash: every index handed to
+   triggerAtSpecificSamples and every index the scans read is in range, and no loop runs out of fuel. *)
+Theorem processing_never_panics :
+  forall npre nsamp ts F0 period ops,
+    lengths_ok npre nsamp = true -> nsamp <= max_nsamp ->
+    contiguous F0 ops -> Forall (op_ok period) ops ->
+    length (run (fresh_start npre nsamp ts) ops) = length ops /\
+    ~ In OPanic (run (fresh_start npre nsamp ts) ops).
+Proof. exact model_never_panics. Qed.
+Print Assumptions processing_never_panics.
+
+(* The model's output passes the observable checker that the harness applies to the implementation's output. *)
+Theorem model_passes_checker :
+  forall npre nsamp ts F0 period ops,
+    lengths_ok npre nsamp = true -> nsamp <= max_nsamp ->
+    contiguous F0 ops -> Forall (op_ok period) ops ->
+    C01_check npre nsamp ts F0 (combine ops (run (fresh_start npre nsamp ts) ops)) = true.
+Proof. exact model_C01_check. Qed.
+Print Assumptions model_passes_checker.
+
+(* What the checker's "true" means for ANY observed history (model or implementation). *)
+Theorem checker_sound :
+  forall npre nsamp ts F0 h,
+    C01_check npre nsamp ts F0 h = true ->
+    exists bs, annotate F0 (init_sstate npre nsamp ts F0) h = Some bs /\
+      forall b r, In b bs -> In r (bi_recs b) ->
+        let j := r_frame r - bi_F0 b in
+        r_pre r = bi_npre b /\ zlen (r_data r) = bi_nsamp b /\
+        0 <= j - bi_npre b /\ j - bi_npre b + bi_nsamp b <= zlen (bi_G b) /\
+        r_data r = zslice (bi_G b) (j - bi_npre b) (bi_nsamp b) /\
+        r_time r = seg_time (bi_seg b) + (r_frame r - seg_first (bi_seg b)) * seg_period (bi_seg b) /\
+        r_signed r = seg_signed (bi_seg b).
+Proof. exact C01_checker_sound. Qed.
+Print Assumptions checker_sound.
+
+(* The ground truth the judgement uses really is what was delivered: for every annotated block, bi_G is the
+   concatenation of the data of all blocks up to and including it, and the block continues it contiguously. *)
+Theorem ground_truth_is_delivered_data :
+  forall F0 s h bs, annotate F0 s h = Some bs ->
+    forall pre b post, bs = pre ++ b :: post ->
+      bi_F0 b = F0 /\
+      bi_G b = s_G s ++ concat (map (fun x => seg_data (bi_seg x)) (pre ++ [b])) /\
+      seg_first (bi_seg b) = F0 + zlen (bi_G b) - zlen (seg_data (bi_seg b)).
+Proof. exact annotate_ground_truth. Qed.
+Print Assumptions ground_truth_is_delivered_data.
